@@ -61,7 +61,7 @@ func (c15) Generate(r *core.Rand, tier string, idx uint64) *core.Case {
 		c.Config["remoteOnly"] = r.Range(0, 2)
 	}
 	c.Flags["syncOnly"] = r.Chance(0.3)  // Sync without a prior reconcile
-	c.Flags["overlap"] = r.Chance(0.3)  // B also changes a ref A changed
+	c.Flags["overlap"] = r.Chance(0.3)   // B also changes a ref A changed
 	c.Flags["overwrite"] = r.Chance(0.3) // Sync's overwrite flag
 	c.Flags["localRefDiverged"] = r.Chance(0.2)
 	c.Config["fault"] = 0 // 0 none, 1 torn push, 2 lost ack
